@@ -380,9 +380,10 @@ BASE_WEIGHTS = {
                  suspend=0.8, resume=2.0, unsol_cancel=0.12, late_reject=0.06, deliver=0.0),
 }
 NEVER_ZERO = ("new", "handle", "resolve", "deliver")
-ROOT_ALPHABET = "abcdefghijklmnopqrstuvwxyzABCDEFGHIJKLMNOPQRSTUVWXYZ0123456789-_.:/#@ "
+ROOT_ALPHABET = "abcdefghijklmnopqrstuvwxyzABCDEFGHIJKLMNOPQRSTUVWXYZ0123456789-_.:/#@ {}%\\$"
 TRICKY_ROOTS = ("a--b", "x--1y", "--5--x", "ord--12a", "7", "--", "a-", "x--", "r--01x", "1--2--", "-",
-                "A--1--B", "0", "n--", "id--9 ", "--1-", "q--1.", "o--1e3")
+                "A--1--B", "0", "n--", "id--9 ", "--1-", "q--1.", "o--1e3", "strat{}", "ord{0}", "x{y}", "algo{{7}}",
+                "basket}}leg", "100%", "%s--%d", "a\\1", "$1")
 QMODES = ("same", "up", "down", "below_cum", "eq_cum", "above_cum")
 PMODES = ("same", "up", "down")
 
@@ -1506,6 +1507,18 @@ class C20aMachine(_MachineBase):
                            f"a report of another order raised {e!r}, not the documented FIXError")])
         return ["foreign", kind]
 
+    def a_reset_messages(self, act):
+        """The test author empties the helper's message queues in the middle of a session (`reset_messages()`, as
+        the repo's own tests do): identities handed out so far stay handed out."""
+        if not self.new_sent:
+            return None
+        try:
+            self.ft.reset_messages()
+        except Exception as e:
+            self.violate([("helper-fabricates-valid-reports", f"C20/reset_messages-raises/{type(e).__name__}", repr(e))])
+        self.probes["helper_queues_reset_mid_session"] += 1
+        return ["reset_messages"]
+
     def a_odd_reject(self, act):
         """While a request is held: the helper is asked for a cancel reject with an OrdStatus the order's state
         machine does not act upon (the helper accepts every OrdStatus).  The order ignores it - whatever the
@@ -1584,6 +1597,7 @@ class C20aMachine(_MachineBase):
             ks.append("bust")
         if self.ex.phase is not None and self.ex.held is None and self.cfg.get("direct_requests"):
             ks.append("foreign")
+            ks.append("reset_messages")
         return ks
 
     def choose(self):
